@@ -47,3 +47,17 @@ func TestPathBulk(t *testing.T) {
 	a := New(t, c)
 	graph.RunPath(t, &Bulk{a}, a.W.Ctx)
 }
+
+func TestReplayTok(t *testing.T) {
+	var c Consts
+	graph.Const(&c)
+	a := NewTok(t, c)
+	graph.RunReplay(t, a, a.W.Ctx, nil)
+}
+
+func TestPathTok(t *testing.T) {
+	var c Consts
+	graph.Const(&c)
+	a := NewTok(t, c)
+	graph.RunPath(t, a, a.W.Ctx)
+}
